@@ -143,53 +143,8 @@ def grammar_part(prog, R):
                 a0 = [x for x in al if x["site"] == s_][0]
                 R.ob("C01.5-" + rule, f"{short(fn)}:{extra}:{i}", False, where(a0), a0["what"])
     R.ob("C01.5-MARKER-LIFO", "closes-checked", True, "", f"{G.facts.get('MARKER-LIFO', 0)} complete/abandon/extend_to evaluations closed the innermost open marker")
-    # linearity by drop elaboration: non-cleanup Drop of a Marker-typed place only inside the three consuming operations
-    allowed = {PP + "Marker::complete", PP + "Marker::abandon", PP + "CompletedMarker::extend_to"}
-    nd = 0
-    for b in prog.by_crate["oq3_parser"]:
-        for bl in b.blocks:
-            if bl.cleanup or bl.term["k"] != "drop":
-                continue
-            ty = bl.term["ty"]
-            if "parser::Marker" in ty and "CompletedMarker" not in ty.replace("parser::Marker", ""):
-                nd += 1
-                ok = b.npath in allowed
-                if ok:
-                    # must be after the bomb is defused
-                    dom = b.dominators()
-                    defuse = [bi for bi, t in b.calls() if (b.callee_of(t) or "").endswith("DropBomb::defuse")]
-                    ok = bool(defuse) and all(d in dom[bl.idx] for d in defuse[:1])
-                R.ob("C01.5-MARKER-linear-drops", f"{short(b.npath)}", ok, bl.term["at"],
-                     "rustc's drop elaboration leaves a non-cleanup drop of a Marker here: a marker can go out of scope without complete/abandon (DropBomb panics)" if not ok else "drop of the consumed marker after DropBomb::defuse")
-    R.floor("Marker drops (the three consuming operations)", nd, 3)
-    # conformance of the five modelled marker operations
-    conf = {PP + "Marker::complete": ["DropBomb::defuse", "Parser::push_event", "CompletedMarker::new"], PP + "Marker::abandon": ["DropBomb::defuse"],
-            PP + "CompletedMarker::precede": ["Parser::start"], PP + "CompletedMarker::extend_to": ["DropBomb::defuse"], PP + "Parser::start": ["Parser::push_event", "Marker::new"]}
-    for fn, must in conf.items():
-        b = R.anchor(prog, fn)
-        if not b:
-            continue
-        cals = [b.callee_of(t) or "" for _, t in b.calls()]
-        missing = [m for m in must if not any(c.endswith(m) for c in cals)]
-        extra = [c for c in cals if c.startswith("oq3_parser") and not any(c.endswith(m) for m in must) and not c.endswith(("Event::tombstone",))]
-        R.ob("C01.5-marker-model-conformance", short(fn), not missing and not extra, b.at, f"modelled operation body calls {sorted(set(c.split('::')[-1] for c in cals))}; missing {missing}; unexpected {extra}")
-    # Input::kind / is_joint / TokenSet::contains model conformance (shape of the bodies)
-    tsc = prog.body("oq3_parser::token_set::TokenSet::contains")
-    if tsc:
-        from sym import SymExec, show
-        ps = SymExec(prog, tsc, inline=lambda c: c.startswith("oq3_parser::token_set::")).paths()
-        shapes = sorted(set(show(p.env.get(0)) for p in ps if "__diverged__" not in p.env))
-        conds = sorted(set(show(c[1]) for p in ps for c in p.conds if c[0] == "switch"))
-        unguarded = ["Ne(BitAnd(self.0, Shl(1, (discr(kind) as usize))), 0)"]
-        ok = shapes == unguarded and not conds
-        guarded = all("Lt(" in c and "128" in c for c in conds) and conds and all(s in ("0", "false", unguarded[0]) for s in shapes)
-        R.ob("C01.4-contains-model-conformance", "TokenSet::contains", ok or guarded, tsc.at, f"body shape {shapes} under {conds}; modelled as bit test of the const set" + (" guarded by kind < 128" if guarded else ""))
-        R.info["contains_guarded"] = bool(guarded)
-    else:
-        R.ob("ANCHOR", "TokenSet::contains", False)
-    is_joint_guard(prog, R)
-    composite_jointness(prog, R, "C01.6-composite-jointness")
     return G
+
 
 
 def is_joint_guard(prog, R, rule="C01.6-is_joint-guarded"):
@@ -293,6 +248,57 @@ def composite_jointness(prog, R, rule):
     R.floor("composite lookahead functions", n, 2)
 
 
+def structural_part(prog, R):
+    """Rules of the grammar cone that do not need the abstract interpreter (CFG / path rules); they are evaluated
+    even when the interpreter does not converge."""
+    # linearity by drop elaboration: non-cleanup Drop of a Marker-typed place only inside the three consuming operations
+    allowed = {PP + "Marker::complete", PP + "Marker::abandon", PP + "CompletedMarker::extend_to"}
+    nd = 0
+    for b in prog.by_crate["oq3_parser"]:
+        for bl in b.blocks:
+            if bl.cleanup or bl.term["k"] != "drop":
+                continue
+            ty = bl.term["ty"]
+            if "parser::Marker" in ty and "CompletedMarker" not in ty.replace("parser::Marker", ""):
+                nd += 1
+                ok = b.npath in allowed
+                if ok:
+                    # must be after the bomb is defused
+                    dom = b.dominators()
+                    defuse = [bi for bi, t in b.calls() if (b.callee_of(t) or "").endswith("DropBomb::defuse")]
+                    ok = bool(defuse) and all(d in dom[bl.idx] for d in defuse[:1])
+                R.ob("C01.5-MARKER-linear-drops", f"{short(b.npath)}", ok, bl.term["at"],
+                     "rustc's drop elaboration leaves a non-cleanup drop of a Marker here: a marker can go out of scope without complete/abandon (DropBomb panics)" if not ok else "drop of the consumed marker after DropBomb::defuse")
+    R.floor("Marker drops (the three consuming operations)", nd, 3)
+    # conformance of the five modelled marker operations
+    conf = {PP + "Marker::complete": ["DropBomb::defuse", "Parser::push_event", "CompletedMarker::new"], PP + "Marker::abandon": ["DropBomb::defuse"],
+            PP + "CompletedMarker::precede": ["Parser::start"], PP + "CompletedMarker::extend_to": ["DropBomb::defuse"], PP + "Parser::start": ["Parser::push_event", "Marker::new"]}
+    for fn, must in conf.items():
+        b = R.anchor(prog, fn)
+        if not b:
+            continue
+        cals = [b.callee_of(t) or "" for _, t in b.calls()]
+        missing = [m for m in must if not any(c.endswith(m) for c in cals)]
+        extra = [c for c in cals if c.startswith("oq3_parser") and not any(c.endswith(m) for m in must) and not c.endswith(("Event::tombstone",))]
+        R.ob("C01.5-marker-model-conformance", short(fn), not missing and not extra, b.at, f"modelled operation body calls {sorted(set(c.split('::')[-1] for c in cals))}; missing {missing}; unexpected {extra}")
+    # Input::kind / is_joint / TokenSet::contains model conformance (shape of the bodies)
+    tsc = prog.body("oq3_parser::token_set::TokenSet::contains")
+    if tsc:
+        from sym import SymExec, show
+        ps = SymExec(prog, tsc, inline=lambda c: c.startswith("oq3_parser::token_set::")).paths()
+        shapes = sorted(set(show(p.env.get(0)) for p in ps if "__diverged__" not in p.env))
+        conds = sorted(set(show(c[1]) for p in ps for c in p.conds if c[0] == "switch"))
+        unguarded = ["Ne(BitAnd(self.0, Shl(1, (discr(kind) as usize))), 0)"]
+        ok = shapes == unguarded and not conds
+        guarded = all("Lt(" in c and "128" in c for c in conds) and conds and all(s in ("0", "false", unguarded[0]) for s in shapes)
+        R.ob("C01.4-contains-model-conformance", "TokenSet::contains", ok or guarded, tsc.at, f"body shape {shapes} under {conds}; modelled as bit test of the const set" + (" guarded by kind < 128" if guarded else ""))
+        R.info["contains_guarded"] = bool(guarded)
+    else:
+        R.ob("ANCHOR", "TokenSet::contains", False)
+    is_joint_guard(prog, R)
+    composite_jointness(prog, R, "C01.6-composite-jointness")
+
+
 def run(prog, R):
     R.explanation = ("Token-kind abstract interpretation of the whole grammar (every Parser method and grammar function analysed from MIR, over all "
                      "token-kind sequences): PROGRESS (every loop iteration / recursion cycle consumes a token => termination and O(tokens) work), "
@@ -301,7 +307,11 @@ def run(prog, R):
     R.not_decided = ["native stack depth for deeply nested input", "behaviour of rowan / unicode-xid / unicode-properties / smol_str", "memory growth other than event-list growth bounded by consumed tokens"]
     R.assumptions = ["input size < 2^31 bytes", "rustc MIR (dev profile, opt-level 0) faithfully represents the source incl. debug assertions and overflow checks",
                      "hand models: Input::kind/is_joint, write to Parser.pos, push_event, TokenSet::contains (conformance-linted), five marker operations (conformance-linted)"]
-    grammar_part(prog, R)
+    try:
+        grammar_part(prog, R)
+    except grammar_run.AIUnavailable as e:
+        ai_unavailable(R, e)
+    structural_part(prog, R)
     try:
         import c01_lexer
         c01_lexer.run(prog, R)
